@@ -277,7 +277,8 @@ int vh_key_gen(vh_key_t *k, const char *spec, vh_rng_t *r)
 	if (!strncmp(spec, "rsa:", 4) || !strncmp(spec, "rsapss:", 7)) {
 		int pss = spec[3] != ':';
 		int bits = atoi(strchr(spec, ':') + 1);
-		EVP_PKEY_CTX *c = EVP_PKEY_CTX_new_from_name(NULL, pss ? "RSA-PSS" : "RSA", NULL);
+		/* JWK carries no RSA vs RSA-PSS distinction (kty "RSA"); the zoo therefore holds plain RSA keys for both */
+		EVP_PKEY_CTX *c = EVP_PKEY_CTX_new_from_name(NULL, "RSA", NULL);
 		k->kind = pss ? VH_K_RSAPSS : VH_K_RSA;
 		if (!c || EVP_PKEY_keygen_init(c) <= 0 || EVP_PKEY_CTX_set_rsa_keygen_bits(c, bits) <= 0 ||
 		    EVP_PKEY_keygen(c, &k->pkey) <= 0) {
@@ -427,14 +428,12 @@ static int fam_fits(const vh_key_t *k, int alg)
 {
 	switch (vh_alg_family(alg)) {
 	case VH_FAM_HS: return k->kind == VH_K_OCT;
-	case VH_FAM_RS: return k->kind == VH_K_RSA;	/* an RSA-PSS restricted key cannot do PKCS#1 v1.5 */
+	case VH_FAM_RS: return k->kind == VH_K_RSA || k->kind == VH_K_RSAPSS;
 	case VH_FAM_PS: return k->kind == VH_K_RSA || k->kind == VH_K_RSAPSS;
 	case VH_FAM_ES:
 		if (k->kind != VH_K_EC || k->bits != vh_alg_ecbits(alg))
 			return 0;
-		/* ES256 <-> P-256, ES256K <-> secp256k1 */
-		if (alg == JWT_ALG_ES256) return !strcmp(k->crv, "P-256");
-		if (alg == JWT_ALG_ES256K) return !strcmp(k->crv, "secp256k1");
+		/* generous reading: the statements only require matching size (ES256/ES256K: any 256-bit curve) */
 		return 1;
 	case VH_FAM_ED: return k->kind == VH_K_OKP && (!strcmp(k->crv, "Ed25519") || !strcmp(k->crv, "Ed448"));
 	default: return 0;
@@ -657,11 +656,11 @@ int vh_hook_drain(vh_hookrec_t *out, int max)
 	ring_n = 0;
 	return n;
 }
-void vh_put_hooks(FILE *f)
+void vh_put_hooks(FILE *f, int keyed)
 {
 	vh_hookrec_t h[VH_RING];
 	int n = vh_hook_drain(h, VH_RING);
-	fputs(",\"hooks\":[", f);
+	fputs(keyed ? ",\"hooks\":[" : ",[", f);
 	for (int i = 0; i < n && i < VH_RING; i++)
 		fprintf(f, "%s[\"%s\",%d,%d,%d,%d]", i ? "," : "", h[i].site, h[i].alg, h[i].kty, h[i].key_alg, h[i].bits);
 	fputs("]", f);
